@@ -182,8 +182,9 @@ CHECKS = [
  {"property_id": "C05",
   "text": "The run loop's except-branches are verified for the log/warn-and-continue and warn-and-pause strategies: the loop invariant "
           "and all ghost assertions hold again after a failing handler exactly as after a returning one (same rely condition), "
-          "warn-and-pause requests STOPPING so the loop exits with the replication state untouched; SimEvent.execute raises only "
-          "DSOLError; Simulator.step raises only the DSOLError of its guards (a failing handler or the message construction cannot "
+          "warn-and-pause requests STOPPING so the loop exits with the replication state untouched; the loop's call of execute is checked "
+          "against the interface contract of SimEventInterface.execute (a user-defined event class may fail with any Exception), "
+          "SimEvent.execute itself raises only DSOLError; Simulator.step raises only the DSOLError of its guards (a failing handler or the message construction cannot "
           "escape as another exception type), ends STOPPED with the invariant intact and at most one event executed.",
   "design_ref": "DESIGN.md section 6 C05",
   "note": COMMON_NOTE + " WARN_AND_END / WARN_AND_EXIT are outside the statement (precondition). Resuming after a pause executes the "
